@@ -107,7 +107,7 @@ func c01buf(p *Program, r *Report, rule string) {
 			continue
 		}
 		for _, x := range fn.Params {
-			if x.Name() == prm {
+			if paramName(x) == prm {
 				tainted[x] = true
 			}
 		}
@@ -389,7 +389,7 @@ func c01wreset(p *Program, r *Report, rule string) {
 }
 
 func c01tail(p *Program, r *Report, rule string) {
-	if c, ok := p.Main.Members["deflateMessageTail"].(*ssa.NamedConst); ok {
+	if c, ok := p.member("deflateMessageTail").(*ssa.NamedConst); ok {
 		s := constant.StringVal(c.Value.Value)
 		r.Exists(rule, "compress.go", "deflateMessageTail", "-", s == "\x00\x00\xff\xff", "deflateMessageTail is the 4 bytes 00 00 ff ff (RFC 7692 §7.2.1)", fmt.Sprintf("%q", s))
 		if fn := p.Func("trimLastFourBytesWriter.Write"); fn != nil {
@@ -478,7 +478,7 @@ func runC08(p *Program, r *Report) {
 			What: "limit reader: negative allowance = unlimited pass-through; zero = the message is over the limit: error and Close(1009) without reading; positive = read at most n bytes and subtract the count (floored at 0)",
 		})
 	}
-	if c, ok := p.Main.Members["StatusMessageTooBig"].(*ssa.NamedConst); ok {
+	if c, ok := p.member("StatusMessageTooBig").(*ssa.NamedConst); ok {
 		v, _ := constInt64(c.Value.Value)
 		r.Exists("C08.table", "close.go", "StatusMessageTooBig", "-", v == 1009, "StatusMessageTooBig = 1009", fmt.Sprint(v))
 	}
@@ -952,11 +952,11 @@ func runC19(p *Program, r *Report) {
 	cReasons(p, r, "C19.reasons")
 	c07ws(p, r, "C19.alias")
 	c07get(p, r, "C19.pool")
-	if c, ok := p.Main.Members["StatusInvalidFramePayloadData"].(*ssa.NamedConst); ok {
+	if c, ok := p.member("StatusInvalidFramePayloadData").(*ssa.NamedConst); ok {
 		v, _ := constInt64(c.Value.Value)
 		r.Exists("C19.read", "close.go", "StatusInvalidFramePayloadData", "-", v == 1007, "StatusInvalidFramePayloadData = 1007", fmt.Sprint(v))
 	}
-	if c, ok := p.Main.Members["MessageText"].(*ssa.NamedConst); ok {
+	if c, ok := p.member("MessageText").(*ssa.NamedConst); ok {
 		v, _ := constInt64(c.Value.Value)
 		r.Exists("C19.write", "conn.go", "MessageText", "-", v == 1, "MessageText = 1 (opText)", fmt.Sprint(v))
 	}
